@@ -267,8 +267,7 @@ def run_block(block, ctx):
             ra, rb_ = fa(), fb()
         else:
             ra, rb_ = A[block["i"]][1](), A[block["j"]][1]()
-        text = "".join("%s  %%generator_names=%s\n" % (ln.rstrip(), g) for g, t in (("ga", refacl.text(ra)), ("gb", refacl.text(rb_)))
-                       for ln in t.split("\n") if ln.strip())
+        text = aclgen.combined_text([("ga", refacl.text(ra)), ("gb", refacl.text(rb_))])
         level = refacl.top(refacl.merge([("ga", ra), ("gb", rb_)]))
         rows = []
         for r in aclgen.row_alphabet(ra)[:3] + aclgen.row_alphabet(rb_)[:3]:
